@@ -135,11 +135,14 @@ type Reenter struct {
 }
 
 type Param struct {
-	T     string  `json:"t,omitempty"`
-	Name  string  `json:"name,omitempty"`
-	Opt   bool    `json:"opt,omitempty"`
-	Group string  `json:"group,omitempty"`
-	Soft  bool    `json:"soft,omitempty"`
+	T     string `json:"t,omitempty"`
+	Name  string `json:"name,omitempty"`
+	Opt   bool   `json:"opt,omitempty"`
+	Group string `json:"group,omitempty"`
+	Soft  bool   `json:"soft,omitempty"`
+	// SlT: a group parameter declared with a named slice type (variant "A"
+	// or "B", types_slices.go) instead of []T
+	SlT   string  `json:"slt,omitempty"`
 	Obj   []Param `json:"obj,omitempty"`
 	IsObj bool    `json:"isobj,omitempty"` // object with possibly zero fields
 	// Decl: the object is a declared struct type (ignore-unexported:"true"
@@ -161,7 +164,8 @@ type Result struct {
 	// Zero: the function returns the zero value (nil pointer, nil interface,
 	// S0{}) for this result: a provided value that happens to be zero
 	Zero  bool     `json:"zero,omitempty"`
-	Slice bool     `json:"sl,omitempty"` // result type is []T (group decorators, flatten)
+	Slice bool     `json:"sl,omitempty"`  // result type is []T (group decorators, flatten)
+	SlT   string   `json:"slt,omitempty"` // slice-typed result declared with a named slice type (variant "A" / "B")
 	Obj   []Result `json:"obj,omitempty"`
 	IsObj bool     `json:"isobj,omitempty"`
 	Tag   string   `json:"tag,omitempty"`
@@ -423,7 +427,11 @@ func (p Param) Short() string {
 		s = "host:" + p.Host
 	}
 	if p.Group != "" {
-		s = "[]" + s + fmt.Sprintf("`group:%q", p.Group)
+		if p.SlT != "" {
+			s = "N" + p.SlT + "_" + s + fmt.Sprintf("`group:%q", p.Group)
+		} else {
+			s = "[]" + s + fmt.Sprintf("`group:%q", p.Group)
+		}
 		if p.Soft {
 			s += ",soft"
 		}
@@ -461,6 +469,9 @@ func (r Result) Short() string {
 	}
 	if r.Slice {
 		s = fmt.Sprintf("[]%s*%d", s, r.N)
+	}
+	if r.SlT != "" {
+		s = "N" + r.SlT + ":" + s
 	}
 	if r.Group != "" {
 		s += fmt.Sprintf("`group:%q", r.Group)
